@@ -83,7 +83,7 @@ class Parser:
         """
         self.tables = []
         self.silent = not debug if debug else silent
-        self.data = content.encode("unicode_escape")
+        self.data = content.replace("\r\n", "\n").encode("unicode_escape")
         self.paren_count = 0
         self.normalize_names = normalize_names
         set_logging_config(log_level, log_file)
